@@ -22,7 +22,8 @@ META = dict(
          "call on; a subject that is not reconnectable constructs no socket after it has been cut off; nothing raises. "
          "ClientTls (fake TLS context, handshake completes or answers want-read by choice; live also means handshaked on the "
          "current socket) runs the same schedules, an https Patron over ClientTls the reconnectable ones; Patron and https Patron are also built WITHOUT store= "
-         "and time is then advanced through patron.store. Extra subject PatronSSE: a reconnectable Patron follows a text/event-stream whose server announces retry: 500 (ms) and "
+         "and time is then advanced through patron.store; TcpClientStack is also built without timeout= and with a "
+         "caller-made handler=Client(timeout, reconnectable). Extra subject PatronSSE: a reconnectable Patron follows a text/event-stream whose server announces retry: 500 (ms) and "
          "drops the stream 3 (4) times, after 2, 0 or 6 calls, by close or ECONNRESET - all combinations; it must be live again "
          "within 8 service calls (retry/step + 4) of every cut.",
     note="Doubles replace loopback sockets so that the harness owns the schedule. 'Service call' for a bare Client is the "
@@ -42,6 +43,9 @@ SUBJECTS = ("Client", "Patron", "TcpClientStack", "ClientTls")
 TLS_EXTRA = (("PatronTls", True, True),)
 # Patron / https Patron built WITHOUT store=: they create their own Store, the harness advances time through
 # patron.store (as Patron.serviceWhile does); same schedules, reconnectable, server initially up
+# TcpClientStack built without timeout= (the handler falls back to Client.Timeout) and with a caller-made
+# handler=Client(timeout=T, reconnectable=True) (the stack's own .timeout stays None); reconnectable, server up
+STACK_EXTRA = (("TcpClientStackDefaultTimeout", True, True), ("TcpClientStackOwnHandler", True, True))
 OWNSTORE_EXTRA = (("PatronOwnStore", True, True), ("PatronTlsOwnStore", True, True))     # https Patron over ClientTls, reconnectable
 BOUNDS = dict(quick=dict(dev=3, H=6), thorough=dict(dev=4, H=9))
 CLOSING = 6
@@ -169,6 +173,18 @@ def build(subject, reconnectable, ck, fn):
         s = M["stacking"].TcpClientStack(stamper=ck, ha=HA, timeout=T, name="client")
         s.handler.reconnectable = reconnectable     # createHandler() has no parameter for it
         return s, (lambda: s.handler), s.serviceAll
+    if subject == "TcpClientStackDefaultTimeout":
+        s = M["stacking"].TcpClientStack(stamper=ck, ha=HA, name="client")
+        if s.handler.timeout != T:
+            raise core.BrokenCheck("Client.Timeout is %r, the schedules assume %r" % (s.handler.timeout, T))
+        s.handler.reconnectable = reconnectable
+        return s, (lambda: s.handler), s.serviceAll
+    if subject == "TcpClientStackOwnHandler":
+        h = M["clienting"].Client(ha=HA, store=ck, timeout=T, reconnectable=reconnectable)
+        s = M["stacking"].TcpClientStack(stamper=ck, ha=HA, handler=h, name="client")
+        if s.handler is not h:
+            raise core.BrokenCheck("TcpClientStack did not take the handler it was given")
+        return s, (lambda: s.handler), s.serviceAll
     raise core.BrokenCheck(subject)
 
 
@@ -197,7 +213,7 @@ def live(subject, obj, h):
         return "connected flag is set but the peer of its socket is gone"
     if tuple(h.ca) != raw.getsockname() or tuple(h.ha) != raw.getpeername():
         return "reports ca=%r ha=%r, socket has %r -> %r" % (h.ca, h.ha, raw.getsockname(), raw.getpeername())
-    if subject == "TcpClientStack" and tuple(obj.local.ha) != raw.getsockname():
+    if subject.startswith("TcpClientStack") and tuple(obj.local.ha) != raw.getsockname():
         return "stack.local.ha=%r, socket is at %r" % (obj.local.ha, raw.getsockname())
     return None
 
@@ -495,6 +511,7 @@ def run():
     cfgs.append(("PatronSSE", True, True))
     cfgs.extend(TLS_EXTRA)
     cfgs.extend(OWNSTORE_EXTRA)
+    cfgs.extend(STACK_EXTRA)
     ck.merge(core.pmap(work, cfgs))
     ck.part.states = len(ck.part.keys)
     b = BOUNDS[core.TIER]
